@@ -41,8 +41,19 @@ func assignAliasOperator(d *dataTreeNavigator, context Context, expressionNode *
 		}
 
 		if aliasName != "" {
+			// an alias stands for an anchored node of its document: find it (an alias without a target
+			// sends every reader of aliases into a nil pointer)
+			root := candidate
+			for root.Parent != nil {
+				root = root.Parent
+			}
+			target := findAnchoredNode(root, aliasName)
+			if target == nil {
+				return Context{}, fmt.Errorf("cannot make %v an alias of '%v': the document has no such anchor", candidate.GetNicePath(), aliasName)
+			}
 			candidate.Kind = AliasNode
 			candidate.Value = aliasName
+			candidate.Alias = target
 		}
 	}
 	return context, nil
@@ -260,6 +271,21 @@ func isListOfMaps(node *CandidateNode) bool {
 		}
 	}
 	return true
+}
+
+func findAnchoredNode(node *CandidateNode, anchor string) *CandidateNode {
+	if node == nil {
+		return nil
+	}
+	if node.Anchor == anchor && node.Kind != AliasNode {
+		return node
+	}
+	for _, child := range node.Content {
+		if found := findAnchoredNode(child, anchor); found != nil {
+			return found
+		}
+	}
+	return nil
 }
 
 func mergeSource(value *CandidateNode) *CandidateNode {
